@@ -4,8 +4,8 @@ import Liquid.Utf8
 
 `TW.step` returns, next to the new state, the list of *underlying* `w.Write` calls the
 operation makes on the success path (this is what makes "the k-th Write call" of C20
-definable). `Write` flushes the previous buffer unless the trim flag is set, in which case it
-strips leading `unicode.IsSpace` runes and *appends*; `TrimLeft` writes the right-trimmed
+definable). `Write` always flushes the previous buffer, and strips leading `unicode.IsSpace` runes of the
+new bytes when the trim flag is set; `TrimLeft` writes the right-trimmed
 buffer even when it is empty; `Flush` writes only a non-empty buffer.
 -/
 
@@ -24,8 +24,7 @@ structure TW where
 /-- one operation on the success path: new state and the underlying writes it issues -/
 def TW.step (t : TW) : WOp → TW × List Bytes
   | .write b =>
-    if t.trim then ({ buf := t.buf ++ trimLeftSpace b, trim := false }, [])
-    else ({ buf := b, trim := false }, if t.buf.isEmpty then [] else [t.buf])
+    ({ buf := if t.trim then trimLeftSpace b else b, trim := false }, if t.buf.isEmpty then [] else [t.buf])
   | .trimLeft => ({ t with buf := [] }, [trimRightSpace t.buf])
   | .trimRight => ({ t with trim := true }, [])
   | .flush => ({ t with buf := [] }, if t.buf.isEmpty then [] else [t.buf])
